@@ -152,6 +152,11 @@ class SrtContext:
       float(end) if end is not None else "unbounded"
     )
 
+    if end is not None and round(end, 3) <= round(begin, 3):
+      # time codes have millisecond resolution: the cue would begin and end on the same time code
+      LOGGER.debug("Skipping an interval shorter than one millisecond.")
+      return
+
     is_isd_empty = True
 
     for region in isd.iter_regions():
